@@ -89,7 +89,7 @@ pub fn disassemble_instruction(chunk: &Chunk, offset: usize) -> usize {
             let offset = offset + 1;
             let try_size =
                 u16::from_ne_bytes([chunk.code[offset], chunk.code[offset + 1]]) as usize;
-            let catch_pos = start + try_size + 5;
+            let catch_pos = start + try_size + 7;
             let offset = offset + 2;
             let catch_size =
                 u16::from_ne_bytes([chunk.code[offset], chunk.code[offset + 1]]) as usize;
@@ -100,7 +100,7 @@ pub fn disassemble_instruction(chunk: &Chunk, offset: usize) -> usize {
                 "PUSH_EXC_HANDLER", catch_pos, finally_pos
             );
 
-            offset + 2
+            offset + 4
         }
         OpCode::PopExcHandler => simple_instruction("POP_EXC_HANDLER", offset),
         OpCode::Throw => simple_instruction("THROW", offset),
